@@ -217,7 +217,7 @@ class Observation:
 
 
 def drive(prog: Any, kind: str, script: Tuple[bool, ...], throw_at: Optional[int], on_suspend: Any,
-          on_probe: Any = None) -> None:
+          on_probe: Any = None, on_created: Any = None) -> None:
     """Run prog(E) to completion; call on_suspend(Observation) at every suspension
     of prog's own frame (including while a manager's __aenter__/__aexit__ is what is suspended)."""
     env = Env(script)
@@ -232,6 +232,8 @@ def drive(prog: Any, kind: str, script: Tuple[bool, ...], throw_at: Optional[int
             pass
         return
     obj = prog(env)
+    if on_created is not None:
+        on_created(obj)          # the target exists but has not been started yet
     if kind == "gen":
         frame_of = lambda: obj.gi_frame  # noqa: E731
         stepper_new = None
